@@ -12,6 +12,9 @@
    A crash while the file is written (OCrash k) leaves the first k bytes of the file and ends the
    process: the next operation runs on a new loader.  OTear k / OForeign s are changes of the file
    by ANOTHER writer (cut to k bytes / complete store of s) while this loader lives on with its cache.
+   OScribble: the caller overwrites every session value it passed to Store or got from Load (the code
+   shares no memory with its caller, so this changes nothing; Store / Load / Fresh / Scribble are the
+   operations of C12_last_store_wins).
    A history is a list of operations on one path; [run] executes it on the model of the code
    (file system + loader with its mtime-keyed cache), [last_store_run] is the three-line
    reference: Store -> ok and remember, Load -> the remembered session or not-found. *)
@@ -80,15 +83,29 @@ Example C12_dir_shapes :
   /\ go_dir [46;46;47;120;47;115] = [46;46;47;120].                          (* "../x/s" -> "../x" *)
 Proof. vm_compute. repeat split. Qed.
 
-(* Histories with crashes, restarts, client starts AND changes made by another writer while the
-   loader lives on (OTear: the file is left cut short; OForeign: another loader stores a complete
-   session): the code behaves exactly like the reference store whose state is "last stored session
-   + how many bytes of its file survive".  The loader's cache is keyed on the modification time
-   alone, so what the code guarantees for a change by ANOTHER writer is tied to its time:
-   [foreign_newer 0 ops] = every OTear / OForeign carries a time strictly later than every time
-   handed out before it.  The loader's own stores, crashes and restarts may share ticks freely
-   (histories without another writer need no condition: C12_last_store_wins above).
-   C12_foreign_equal_tick_unseen states exactly what happens on an equal tick. *)
+(* Histories with crashes, restarts, client starts, the caller scribbling over its own copies
+   (OScribble) AND changes made by another writer while the loader lives on (OTear: the file is left
+   cut short; OForeign: another loader stores a complete session): the code behaves exactly like the
+   reference store whose state is "last stored session + how many bytes of its file survive".
+   The loader's cache is keyed on the modification time alone and the code's test is EQUALITY
+   (Load: info.ModTime().Equal(l.lastEdited)), so what the code guarantees for a change by ANOTHER
+   writer is: it is seen iff it carries a time DIFFERENT - later or earlier - from the one the living
+   loader cached at.  [foreign_visible ts0 ops] says exactly that along the history ([tstep] tracks the
+   time the file carries and the time the loader cached at: a successful Load caches at the file's
+   time; the loader's own Store, a restart, a crash drop the cache).  The loader's own stores, crashes
+   and restarts may share ticks freely (histories without another writer need no condition:
+   C12_last_store_wins above).  C12_foreign_equal_tick_unseen states what happens on the cached time. *)
+Theorem C12_history_refines_exact :
+  forall b64enc b64dec marshal unmarshal, base64_ok b64enc b64dec -> json_ok marshal unmarshal ->
+  forall (p : bytes) (fs : fsys) (ops : list op),
+    p <> [] -> dirs fs (go_dir p) = DDir -> files fs p = None ->
+    forallb proper ops = true -> foreign_visible b64enc marshal (mkT IAbsent 0 None) ops = true ->
+    run b64enc b64dec marshal unmarshal fs (fresh p) ops = ideal_run b64enc marshal IAbsent ops.
+Proof. intros ? ? ? ? [? ?] [? ?]. intros. now apply history_refines_exact. Qed.
+Print Assumptions C12_history_refines_exact.
+
+(* the same under a condition that needs no bookkeeping: every change by another writer is strictly
+   later than every time handed out before it in the history *)
 Theorem C12_history_refines :
   forall b64enc b64dec marshal unmarshal, base64_ok b64enc b64dec -> json_ok marshal unmarshal ->
   forall (p : bytes) (fs : fsys) (ops : list op),
@@ -136,13 +153,14 @@ Qed.
 Print Assumptions C12_torn_every_load_is_error.
 
 (* The long-lived loader, end to end from any state: it stores s and reads it back (cached); ANOTHER
-   writer leaves the file cut to k < n bytes on a later tick; every one of the n Loads of the
-   surviving loader is an error, and after a restart every one of the m Loads of a new loader too. *)
+   writer leaves the file cut to k < n bytes carrying a DIFFERENT time (later, or earlier: mtimes that
+   go back); every one of the n Loads of the surviving loader is an error, and after a restart every
+   one of the m Loads of a new loader too. *)
 Theorem C12_foreign_tear_history :
   forall b64enc b64dec marshal unmarshal, base64_ok b64enc b64dec -> json_ok marshal unmarshal ->
   forall (fs : fsys) (l : loader) (s : session) (t : N) (k : nat) (t' : N) (n m : nat),
     l_path l <> [] -> dirs fs (go_dir (l_path l)) = DDir -> session_ok s = true ->
-    (k < length (render b64enc marshal s))%nat -> t < t' ->
+    (k < length (render b64enc marshal s))%nat -> t' <> t ->
     run b64enc b64dec marshal unmarshal fs l
       ([OStore s t; OLoad; OTear k t'] ++ repeat OLoad n ++ OFresh :: repeat OLoad m)
     = [ObsStore (Ok tt); ObsLoad (LOk s); ObsNone] ++ repeat (ObsLoad LErr) n
@@ -150,19 +168,20 @@ Theorem C12_foreign_tear_history :
 Proof. intros ? ? ? ? [? ?] [? ?]. intros. now apply tear_history. Qed.
 Print Assumptions C12_foreign_tear_history.
 
-(* Another loader stores a complete session on a later tick: the surviving loader returns it. *)
-Theorem C12_foreign_store_newer_wins :
+(* Another loader stores a complete session carrying a DIFFERENT time - later, or earlier (a file
+   restored from a backup, cp -p, os.Chtimes): the surviving loader returns it. *)
+Theorem C12_foreign_store_other_time_wins :
   forall b64enc b64dec marshal unmarshal, base64_ok b64enc b64dec -> json_ok marshal unmarshal ->
   forall (fs : fsys) (l : loader) (a b : session) (t t' : N) (n : nat),
     l_path l <> [] -> dirs fs (go_dir (l_path l)) = DDir ->
-    session_ok a = true -> session_ok b = true -> t < t' ->
+    session_ok a = true -> session_ok b = true -> t' <> t ->
     run b64enc b64dec marshal unmarshal fs l ([OStore a t; OLoad; OForeign b t'] ++ repeat OLoad n)
     = [ObsStore (Ok tt); ObsLoad (LOk a); ObsNone] ++ repeat (ObsLoad (LOk b)) n.
-Proof. intros ? ? ? ? [? ?] [? ?]. intros. now apply foreign_newer_wins. Qed.
-Print Assumptions C12_foreign_store_newer_wins.
+Proof. intros ? ? ? ? [? ?] [? ?]. intros. now apply foreign_differs_wins. Qed.
+Print Assumptions C12_foreign_store_other_time_wins.
 
-(* EXACTLY what the code does when another writer's change lands on the very tick the surviving
-   loader cached at: the change is invisible to that loader - it keeps returning the session it
+(* EXACTLY what the code does when another writer's change carries the very time the surviving
+   loader cached at (same tick, or a time set back to it with os.Chtimes): the change is invisible to that loader - it keeps returning the session it
    stored and read back itself (never anything else, never a panic) - while a new loader sees the
    file as it is (the foreign session, resp. an error for the cut file).  This is the limit of a
    cache keyed on the modification time; the clause "a cut file is an error" holds for a
@@ -216,6 +235,42 @@ Theorem C12_codec_roundtrip :
   forall s, session_ok s = true -> parse b64dec unmarshal (render b64enc marshal s) = Ok s.
 Proof. intros ? ? ? ? [? ?] [? ?]. now apply parse_render. Qed.
 Print Assumptions C12_codec_roundtrip.
+
+(* FULL STATEMENT of the property text ("server address - any byte values ... read back identically"):
+     forall s, session_bytes_ok s = true -> parse (render s) = Ok s          (no condition on s_host)
+   It does NOT hold for the code: encoding/json coerces a string to valid UTF-8 when it marshals it
+   (every byte at which no valid sequence starts becomes U+FFFD; [coerce_utf8], compared with the real
+   encoder on every host name of every run).  With encoding/json taken as it is ([json_go_ok]:
+   unmarshal (marshal t) = coerce_tsf t) what comes back is the session with the host name coerced,
+   silently - C12_codec_any_host - and C12_hostname_not_utf8_refuted exhibits a session
+   ("t\xffme:443") that a store followed by a load of the same loader turns into a different one.
+   [session_ok] (host name valid UTF-8) is the exact guard under which the round trip IS proved
+   (C12_codec_roundtrip, C12_last_store_wins, ...): for such hosts coerce_utf8 is the identity
+   (coerce_valid_id), and json_ok is json_go_ok restricted to them (json_go_ok_json_ok).
+   Known finding key=store-load:hostname-invalid-utf8 (KNOWN_FINDINGS.txt), not repaired. *)
+Theorem C12_codec_any_host :
+  forall b64enc b64dec marshal unmarshal, base64_ok b64enc b64dec -> json_go_ok marshal unmarshal ->
+  forall s, session_bytes_ok s = true ->
+    parse b64dec unmarshal (render b64enc marshal s) = Ok (coerce_session s).
+Proof. intros ? ? ? ? [? ?] [? ?]. intros. now apply parse_render_any_host. Qed.
+Print Assumptions C12_codec_any_host.
+
+Theorem C12_hostname_not_utf8_refuted :
+  forall b64enc b64dec marshal unmarshal, base64_ok b64enc b64dec -> json_go_ok marshal unmarshal ->
+  forall (fs : fsys) (l : loader) (t : N), dirs fs (go_dir (l_path l)) = DDir ->
+  exists s s', session_bytes_ok s = true /\
+    run b64enc b64dec marshal unmarshal fs l [OStore s t; OLoad] = [ObsStore (Ok tt); ObsLoad (LOk s')] /\
+    s' <> s.
+Proof. exact hostname_not_utf8_refuted. Qed.
+Print Assumptions C12_hostname_not_utf8_refuted.
+
+Example C12_coerce_examples :
+  coerce_utf8 [116; 255; 109; 101] = [116; 239; 191; 189; 109; 101]                  (* "t\xffme" *)
+  /\ coerce_utf8 [226; 130] = [239; 191; 189; 239; 191; 189]                          (* truncated sequence: one per byte *)
+  /\ coerce_utf8 [237; 160; 128] = [239; 191; 189; 239; 191; 189; 239; 191; 189]      (* surrogate *)
+  /\ coerce_utf8 [208; 191; 240; 159; 166; 138] = [208; 191; 240; 159; 166; 138]      (* valid: unchanged *)
+  /\ json_go_ok toy_go_marshal toy_unmarshal.                                         (* json_go_ok is satisfiable *)
+Proof. repeat split; try (vm_compute; reflexivity); apply toy_go_json_ok. Qed.
 
 (* The executable base64 used in the model runs satisfies what is assumed of base64. *)
 Theorem C12_base64_model : base64_ok b64_encode b64_decode.
